@@ -28,9 +28,10 @@ ASSUMPTIONS = [
 ]
 TOL = 1e-9
 
-VECS = {3: [[1.0, -2.0, 0.5], [0.0, 0.0, 3.0], [-4.0, 0.0, 0.0]], 2: [[1.0, -2.0], [0.0, 3.0], [-4.0, 0.0]]}
-ANGLES = [30, 45, 90, -60, 180]
-FACTORS = [2, 0.5, -1, 2.5]
+VECS = {3: [[1.0, -2.0, 0.5], [0.0, 0.0, 3.0], [-4.0, 0.0, 0.0], [0.0, 0.0, 0.0]],
+        2: [[1.0, -2.0], [0.0, 3.0], [-4.0, 0.0], [0.0, 0.0]]}      # the null translation is a translation too
+ANGLES = [30, 45, 90, -60, 180, 0]
+FACTORS = [2, 0.5, -1, 2.5, 1]
 OFFSETS = [[3.0, -2.0, 5.0], [-6.0, 4.0, 1.0], [2.0, 7.0, -3.0]]
 
 
